@@ -259,6 +259,8 @@ class Check:
         self.assumptions = []
         self.violations = []       # list of (summary, replay_path)
         self.known_hits = []       # list of strings
+        self.pre_finish = []       # stages appended by bin/check, run once before a passing check finishes
+        self._pre_finish_ran = False
         self.known = load_known(pid)
         self.parts = []            # human-readable record of what ran
 
@@ -314,6 +316,12 @@ class Check:
             self.known_hits.append(text)
 
     def finish(self, rule=None, exhaustive=None, extra_cov=None):
+        if self.pre_finish and not self.violations and not self._pre_finish_ran:
+            self._pre_finish_ran = True
+            for stage in self.pre_finish:
+                stage(self)
+                if self.violations:
+                    break
         wall = time.time() - self.t0
         cov = dict(self.cov)
         if rule:
